@@ -137,6 +137,6 @@ Proof. exact product_single_digit_unrecognised. Qed.
 (* literals the model repeats from the source are the ones the translator extracts from the current source (gen/Tables.v) *)
 From VGen Require Import Tables.
 From VModel Require Import BannerM.
-From VProofs Require Import TieProofs.
+From VProofs Require Import TieC16.
 Theorem c16_tie_banner_products : forall v, sw_parse_str (String.append "tinyssh_" v) = Some (mkS None product_TinySSH v None) /\ sw_parse_str (String.append "PuTTY_Release_" v) = Some (mkS None product_PuTTY v None).
 Proof. exact tie_banner_products. Qed.
